@@ -57,6 +57,8 @@
 static uint16 Lastref        = 0; /* Last ref read/written */
 static uint16 Next_label_ref = 0; /* Next file label ref to read/write */
 static uint16 Next_desc_ref  = 0; /* Next file desc ref to read/write */
+static int    No_more_labels = FALSE; /* the last file label has been returned */
+static int    No_more_descs  = FALSE; /* the last file desc has been returned */
 
 static char *Lastfile = NULL;
 
@@ -1389,6 +1391,18 @@ DFANIgetfannlen(int32 file_id, int type, int isfirst)
         if (DFANIstart() == FAIL)
             HGOTO_ERROR(DFE_CANTINIT, FAIL);
 
+    /* A new enumeration starts over; one that has delivered its last
+       annotation has nothing more to give (every ref value may be in use,
+       so there is no ref that could stand for "no next annotation") */
+    if (isfirst == 1) {
+        if (type == DFAN_LABEL)
+            No_more_labels = FALSE;
+        else
+            No_more_descs = FALSE;
+    }
+    else if ((type == DFAN_LABEL) ? No_more_labels : No_more_descs)
+        HGOTO_ERROR(DFE_NOMATCH, FAIL);
+
     /* Identify tag for this "type" of access; determine which ref to key on. */
     if (type == DFAN_LABEL) {
         anntag = DFTAG_FID;
@@ -1443,8 +1457,6 @@ done:
        Lastref, Next_desc_ref, Next_label_ref
  COMMENTS, BUGS, ASSUMPTIONS
        If maxlen not great enough, ann is truncated to maxlen-1 chars
-       BUG: If ref is high possible ref value, setting of Next_label_ref
-            or Next_desc_ref behave unpredictably.
  EXAMPLES
  REVISION LOG
  *---------------------------------------------------------------------------*/
@@ -1464,6 +1476,18 @@ DFANIgetfann(int32 file_id, char *ann, int32 maxlen, int type, int isfirst)
 
     if (!ann)
         HGOTO_ERROR(DFE_BADPTR, FAIL);
+
+    /* A new enumeration starts over; one that has delivered its last
+       annotation has nothing more to give (every ref value may be in use,
+       so there is no ref that could stand for "no next annotation") */
+    if (isfirst == 1) {
+        if (type == DFAN_LABEL)
+            No_more_labels = FALSE;
+        else
+            No_more_descs = FALSE;
+    }
+    else if ((type == DFAN_LABEL) ? No_more_labels : No_more_descs)
+        HGOTO_ERROR(DFE_NOMATCH, FAIL);
 
     /* Identify tag for this "type" of access; determine which ref to key on. */
     if (type == DFAN_LABEL) {
@@ -1499,11 +1523,11 @@ DFANIgetfann(int32 file_id, char *ann, int32 maxlen, int type, int isfirst)
 
     /* prepare for next call */
     if (FAIL ==
-        Hnextread(aid, anntag, DFREF_WILDCARD, DF_CURRENT)) { /* If no more of them, set Next_ ???_ref */
-        if (type == DFAN_LABEL)                               /*    to one higher than current value   */
-            Next_label_ref++;                                 /*    so that next call will fail.       */
+        Hnextread(aid, anntag, DFREF_WILDCARD, DF_CURRENT)) { /* If no more of them, remember it */
+        if (type == DFAN_LABEL)                               /*    so that next call will fail.    */
+            No_more_labels = TRUE;
         else
-            Next_desc_ref++;
+            No_more_descs = TRUE;
     }
     else { /* Otherwise save the next ref */
         if (FAIL == Hinquire(aid, (int32 *)NULL, (uint16 *)NULL, &annref, (int32 *)NULL, (int32 *)NULL,
